@@ -16,7 +16,7 @@ from harness.lib.coqrun import qlit, zlit, blit, listlit, run_mismatch_cases
 from harness.lib.ctx import guarded
 
 REQ = "From HV Require Import Common.Generic Common.Cmp C02.Model.\nOpen Scope Q_scope.\n"
-DEFS = ("Definition K := cx_ops QO.\n"
+DEFS = ("Definition K := cx_ops QF.\n"
         "Definition tol : Q := 1 # 1000000000.\n"       # 1e-9 relative: model vs implementation on the same leaves
         "Definition tolz : Q := 1 # 1000000000000.\n"   # 1e-12: arguments handed to special functions
         "Definition fl : Q := Qmake 1 (Pos.pow 10 300).\n")
@@ -118,7 +118,7 @@ def stage_scatcoeffs(ctx):
                 ctx.count("scatcoeffs:excluded-illconditioned-order")
                 continue
             used += 1
-            e = "pclose QO tol fl (scatcoeffs_BH K %s %s %s %s %s %s %s %s) (%s, %s)" % (
+            e = "pclose QF tol fl (scatcoeffs_BH K %s %s %s %s %s %s %s %s) (%s, %s)" % (
                 clit(D[n]), clit(m), rlit(x), rlit(n), rlit(psi[n]), rlit(psi[n - 1]), clit(xi[n]), clit(xi[n - 1]),
                 clit(out[0][n - 1]), clit(out[1][n - 1]))
             exprs.append(e)
@@ -184,7 +184,7 @@ def stage_multi(ctx):
         ctx.count("multi:layers=%d" % L)
         ctx.count("multi:mode=" + mode)
         lay_lit = listlit(["(%s, %s)" % (clit(m), rlit(x)) for m, x in zip(ms, xs)])
-        e_args = "(let '(z0, zs) := yang_args K %s in cclose QO tolz fl z0 %s && args_close QO tolz fl zs %s)" % (
+        e_args = "(let '(z0, zs) := yang_args K %s in cclose QF tolz fl z0 %s && args_close QF tolz fl zs %s)" % (
             lay_lit, clit(z0), listlit(["(%s, %s)" % (clit(a), clit(b)) for a, b in zs]))
         exprs.append(e_args)
         metas.append(dict(what="scatcoeffs_multi special-function arguments", ms=ms, xs=xs, z0=z0, zs=zs))
@@ -219,7 +219,7 @@ def stage_multi(ctx):
                 clit(marr[lay]), clit(leaves[lay - 1][0][0][n]), clit(leaves[lay - 1][0][1][n]),
                 clit(leaves[lay - 1][1][0][n]), clit(leaves[lay - 1][1][1][n]), clit(leaves[lay - 1][2][n]))
                 for lay in range(1, L)])
-            e = "pclose QO tol fl (scatcoeffs_multi_vals K %s %s %s %s %s %s %s %s %s %s) (%s, %s)" % (
+            e = "pclose QF tol fl (scatcoeffs_multi_vals K %s %s %s %s %s %s %s %s %s %s) (%s, %s)" % (
                 clit(marr[0]), clit(d1core[n]), lf_lit, clit(marr[-1]), rlit(xarr[-1]), rlit(n),
                 rlit(psi[n]), rlit(psi[n - 1]), clit(xi[n]), clit(xi[n - 1]), clit(out[0][n - 1]), clit(out[1][n - 1]))
             exprs.append(e)
@@ -268,8 +268,8 @@ def stage_albl(ctx):
             continue
         ctx.count("albl:" + kind)
         ctx.nontriv(("albl", k))
-        e = ("(let r := albl_leaves QO %s %s %s %s %s %s %s %s in pclose QO tol fl (fst r) (%s, %s) && "
-             "cclose QO tolz fl (snd r) %s)") % (clit(m), rlit(x), clit(jmx), clit(djmx), rlit(jx), rlit(djx),
+        e = ("(let r := albl_leaves QF %s %s %s %s %s %s %s %s in pclose QF tol fl (fst r) (%s, %s) && "
+             "cclose QF tolz fl (snd r) %s)") % (clit(m), rlit(x), clit(jmx), clit(djmx), rlit(jx), rlit(djx),
                                                  rlit(yx), rlit(dyx), clit(a), clit(b), clit(z))
         exprs.append(e)
         metas.append(dict(what="AlBlFunctions.calculate_al_bl", m=m, x=x, l=l, impl=[a, b]))
@@ -341,7 +341,7 @@ def stage_asm(ctx):
         n = np.arange(1, nstop + 1)
         pre = (2. * n + 1) / (n * (n + 1.))
         scale = float(np.sum(pre * (np.abs(co[0]) + np.abs(co[1])) * (np.abs(pis) + np.abs(taus))))
-        e = "mclose QO tol %s (asm_far K %s %s) %s" % (
+        e = "mclose QF tol %s (asm_far K %s %s) %s" % (
             qlit(scale), ablit(co), listlit(["(%s, %s)" % (rlit(p), rlit(t)) for p, t in zip(pis, taus)]), matlit(M))
         exprs.append(e)
         metas.append(dict(what="asm_mie_far", m=m, x=x, theta=theta, impl=M))
@@ -362,7 +362,7 @@ def stage_asm(ctx):
         theta, phi = gen_theta(rng), rng.uniform(0, 2 * math.pi)
         sa = uts_scsmfo.asm(amn, lmax, theta, phi)
         M = multisphere._asm_far(theta, phi, amn, lmax)
-        e = "mclose QO (1 # 100000000000000) fl (tm_pack K %s) %s" % (listlit([clit(v) for v in sa]), matlit(M))
+        e = "mclose QF (1 # 100000000000000) fl (tm_pack K %s) %s" % (listlit([clit(v) for v in sa]), matlit(M))
         exprs.append(e)
         metas.append(dict(what="multisphere._asm_far", m=m, x=x, theta=theta, phi=phi, leaf=list(sa), impl=M))
         ctx.count("asm:_asm_far")
@@ -387,7 +387,7 @@ def stage_asm(ctx):
         pre = (2. * n + 1) / (n * (n + 1.))
         scale = float(np.sum(pre * np.array([abs(a) + abs(b) for a, b in ab]) * (np.abs(pil[0]) + np.abs(taul[0]))))
         fn = "mls_perp" if par == "perpendicular" else "mls_par"
-        e = "cclose QO tol %s (%s K 1 %s %s) %s" % (
+        e = "cclose QF tol %s (%s K 1 %s %s) %s" % (
             qlit(scale), fn, listlit(["(%s, %s)" % (clit(a), clit(b)) for a, b in ab]),
             listlit(["(%s, %s)" % (rlit(p), rlit(t)) for p, t in zip(pil[0], taul[0])]), clit(val))
         exprs.append(e)
@@ -435,7 +435,7 @@ def stage_fields(ctx):
                 ctx.count("fields:excluded-nonfinite")
                 continue
             scale = max(abs(v) for v in E) + abs(pf) * float(np.max(np.abs(Mfull if rad_dep else Mfar)))
-            e = "v3close QO tol %s (mie_field_pt K %s %s %s %s %s %s %s %s %s) (%s, %s, %s)" % (
+            e = "v3close QF tol %s (mie_field_pt K %s %s %s %s %s %s %s %s %s) (%s, %s, %s)" % (
                 qlit(scale), blit(rad), blit(rad_dep), matlit(Mfar), matlit(Mfull), clit(erad), clit(pf),
                 rlit(pol[0]), rlit(pol[1]), " ".join(trig(theta, phi)), clit(E[0]), clit(E[1]), clit(E[2]))
             exprs.append(e)
@@ -467,7 +467,7 @@ def stage_fields(ctx):
                 ctx.count("fields:excluded-nonfinite")
                 continue
             scale = max(abs(v) for v in E) + abs(pf) * float(np.max(np.abs(sa)))
-            e = "v3close QO tol %s (tm_field_pt K %s %s (%s, %s) %s %s %s %s) (%s, %s, %s)" % (
+            e = "v3close QF tol %s (tm_field_pt K %s %s (%s, %s) %s %s %s %s) (%s, %s, %s)" % (
                 qlit(scale), blit(rad), listlit([clit(v) for v in sa]), clit(ra[0]), clit(ra[1]), clit(pf),
                 rlit(pol[0]), rlit(pol[1]), " ".join(trig(theta, phi)), clit(E[0]), clit(E[1]), clit(E[2]))
             exprs.append(e)
@@ -495,7 +495,7 @@ def stage_fields(ctx):
             if not finite(S[i], E):
                 continue
             scale = max(abs(v) for v in E) + abs(pf) * float(np.max(np.abs(S[i])))
-            e = "v3close QO tol %s (tmat_field_pt K %s %s %s) (%s, %s, %s)" % (
+            e = "v3close QF tol %s (tmat_field_pt K %s %s %s) (%s, %s, %s)" % (
                 qlit(scale), clit(pf), matlit(S[i]), " ".join(trig(theta, phi)), clit(E[0]), clit(E[1]), clit(E[2]))
             exprs.append(e)
             metas.append(dict(what="Tmatrix.raw_fields", m=m, x=x, point=[kr, theta, phi], impl=list(E)))
